@@ -10,6 +10,7 @@ import (
 	"github.com/invopop/gobl"
 	"github.com/invopop/gobl/internal/cli"
 	"github.com/invopop/gobl/schema"
+	"github.com/invopop/yaml"
 )
 
 // C04 — calculation is a deterministic fixpoint; serialisation is lossless;
@@ -235,7 +236,15 @@ func execC04(x *X) {
 				note = "skip-signed" // cli.Build strips signatures by design
 				break
 			}
-			rd := NewSimReader(x, "build-in", before)
+			input := before
+			if op.J%2 == 1 {
+				// the CLI reads YAML: the same envelope written as YAML must build to the same bytes
+				if y, err := yaml.JSONToYAML(before); err == nil {
+					input = y
+					x.Probe("yaml-input")
+				}
+			}
+			rd := NewSimReader(x, "build-in", input)
 			if op.I > 0 {
 				rd.Chunks = []int{int(op.I)}
 			}
